@@ -170,6 +170,12 @@ def run(ctx):
         ctx.distinct(json.dumps(c, sort_keys=True))
         if k < 2 or (valid and len(ctx.samples) < 4):
             ctx.sample(dict(case=c, valid=valid, validate=v, gen_msg=g, datagrams=len(sent)))
+    # the simulator's forwarding path (L1 -> TRX message turned into a TRX -> L1 message with derived
+    # RSSI / ToA / C-I): what does not validate is not sent there either
+    from . import faketrx_common as FC
+    traces = [FC.traffic_session(ctx, "s%d" % k, "C10") for k in range(ctx.pick(60, 1500))]
+    FC.validate(ctx, traces, ("C13.",), "TV FakeTrxTrace (messages forwarded by the real Application)")
+    ctx.extra["forwarding_sessions"] = len(traces)
     ctx.rule = ("every message field at None / below / on / above its range boundaries with the others valid, and all pairs "
                 "of such deviations, for every class x version x modulation x NOPE base, enumerated by TLC from ValidGen.tla "
                 "(complete for that product); distinct = distinct field assignments")
